@@ -28,6 +28,30 @@ def seeded_table():
     return head + '\n'.join(rows) + '\n'
 
 
+def status_figures(s):
+    """third column of the 0A.3 table <- committed inventories"""
+    import fnmatch
+    kf = []
+    for l in open(os.path.join(ROOT, 'KNOWN_FINDINGS.jsonl')):
+        l = l.strip()
+        if l.startswith('{'):
+            kf.append(json.loads(l))
+    out = []
+    for line in s.split('\n'):
+        m = re.match(r'\| (C\d\d) \| ([^|]*) \| ([^|]*) \|(.*)$', line)
+        inv = os.path.join(ROOT, 'obligations', f'{m.group(1)}.json') if m else None
+        if m and os.path.exists(inv) and 'obligations (proof-level' not in line:
+            d = json.load(open(inv))
+            b = sum(1 for v in d.values() if v.get('bounded'))
+            known = [n for n in d for k in kf if any(fnmatch.fnmatchcase(n, p) for p in (k['obligation'] if isinstance(k['obligation'], list) else [k['obligation']]))]
+            kn = len(set(known))
+            kb = len({n for n in set(known) if d[n].get('bounded')})
+            fig = f'{len(d) - b - (kn - kb)}{f" (+{kn - kb} known)" if kn - kb else ""} / {b}{f" ({kb} of them known)" if kb else ""}'
+            line = f'| {m.group(1)} | {m.group(2)} | {fig} |{m.group(4)}'
+        out.append(line)
+    return '\n'.join(out)
+
+
 def main():
     p = os.path.join(ROOT, 'DESIGN.md')
     s = open(p).read()
@@ -37,6 +61,7 @@ def main():
     tab = seeded_table()
     s = re.sub(r'<!-- SEEDED-TABLE-BEGIN -->.*?<!-- SEEDED-TABLE-END -->',
                '<!-- SEEDED-TABLE-BEGIN -->\n' + tab + '<!-- SEEDED-TABLE-END -->', s, flags=re.S)
+    s = status_figures(s)
     open(p, 'w').write(s)
 
 
